@@ -140,6 +140,7 @@ type FuncTr struct {
 	calledTrack map[string]bool // callee names mentioned in called(...) of this contract
 	exitDef    map[*ssa.Alloc]bool // variables whose declaration is tracked for exit assertions
 	exitHit    map[int]bool        // exit assertions translated at some return
+	completeHit map[int]bool       // loops declared complete for which an early exit edge was found (and asserted unreachable)
 	exitSkip   map[int]string      // exit assertions skipped at some return (identifier not in scope there)
 	trackDef   map[*ssa.Alloc]*LoopInfo // variables declared in the body of a loop with end assertions: defined-in-this-iteration flags
 	rfLoops    []*LoopInfo
@@ -852,6 +853,17 @@ func verifyFuncPass(w *World, fn *ssa.Function, c *Contract, eager map[string]bo
 		// (reported as undecided; the function's other obligations are still checked)
 		for _, lw := range ft.loopWarn {
 			res.Warn = append(res.Warn, fmt.Sprintf("%s: %s", fn.String(), lw))
+		}
+		// a loop declared complete that has no early exit edge at all: record the clause as one (trivial) obligation, so
+		// that it is counted and named in the evidence
+		for _, l := range ft.loops {
+			if ls := c.Loops[l.Ordinal]; ls != nil && ls.Complete != nil && !ft.completeHit[l.Ordinal] {
+				id := ls.Complete.Name
+				if id == "" {
+					id = "1"
+				}
+				ft.assert(TFalse, TFalse, fmt.Sprintf("loop%d.complete[%s]", l.Ordinal, id), "", ls.Complete.Text+" (no early exit edge in the code)", token.NoPos)
+			}
 		}
 		// an exit assertion whose identifiers are in scope at no return at all was never checked (a renamed or removed
 		// local): a hole, not a pass
@@ -1568,7 +1580,36 @@ func (ft *FuncTr) goEdge(b, succ *ssa.BasicBlock, cond *Term, st *State) error {
 		}
 		return nil
 	}
+	if b != nil {
+		if err := ft.checkComplete(b, succ, cond); err != nil {
+			return err
+		}
+	}
 	ft.edges[succ] = append(ft.edges[succ], Edge{b, cond, st})
+	return nil
+}
+
+// checkComplete: for loops declared complete, an edge from a block of the loop other than its header to a block outside
+// the loop (break, goto) must be unreachable. succ == nil stands for a return inside the loop.
+func (ft *FuncTr) checkComplete(b, succ *ssa.BasicBlock, cond *Term) error {
+	for _, l := range ft.loops {
+		ls := ft.c.Loops[l.Ordinal]
+		if ls == nil || ls.Complete == nil || !l.Blocks[b] || b == l.Header {
+			continue
+		}
+		if succ != nil && l.Blocks[succ] {
+			continue
+		}
+		id := ls.Complete.Name
+		if id == "" {
+			id = "1"
+		}
+		if ft.completeHit == nil {
+			ft.completeHit = map[int]bool{}
+		}
+		ft.completeHit[l.Ordinal] = true
+		ft.assert(cond, TFalse, fmt.Sprintf("loop%d.complete[%s]", l.Ordinal, id), "", ls.Complete.Text, token.NoPos)
+	}
 	return nil
 }
 
